@@ -204,3 +204,15 @@ Theorem C09_success_before_completion : forall ch label a s ch' obs,
     forall l b, In (OTx l b false) obs'' -> fresh_ok (ch_rotate ch') (ch_servers ch') b.
 Proof. exact answer_then_send. Qed.
 Print Assumptions C09_success_before_completion.
+
+(* The bookkeeping behind C09_probe_liveness: in every reachable state a server is marked "probe
+   pending" only while a probe copy to it is outstanding.  A probe copy that fails at once while
+   being sent (socket/connect error: EvSend followed by EvRefuse of the probe copy - the engine
+   "servers" replays it that way, event p) therefore leaves the mark cleared, and by
+   C09_probe_liveness the server is probed again once its retry time has passed. *)
+Theorem C09_probe_flag_has_probe : forall addrs rotate tries chance delay now evs ch obs b s,
+  run (init_chan addrs rotate tries chance delay now) evs = Ok (ch, obs) ->
+  find_addr b (ch_servers ch) = Some s -> sv_probe s = true ->
+  exists x, In x (ch_inflight ch) /\ at_probe x = true /\ at_server x = b.
+Proof. exact probe_flag_has_probe. Qed.
+Print Assumptions C09_probe_flag_has_probe.
